@@ -32,9 +32,10 @@ VARIABLES
   lastAdd,   \* result of the last Add
   files,     \* [renamed, rewritten] sets of files
   pass,      \* [errSeen, exitErr, content, undefined, ended, printed, deleted]
+  imports,   \* alias -> import path of the file being generated (printer.go)
   bad        \* sequence of [l, run, why]
 
-vars == <<l, run, tabs, reserved, plugins, flags, stack, genf, cur, lastAdd, files, pass, bad>>
+vars == <<l, run, tabs, reserved, plugins, flags, stack, genf, cur, lastAdd, files, pass, imports, bad>>
 
 NoRun  == [id |-> "none", ident |-> FALSE, calls |-> <<>>, assertExit |-> FALSE, autoname |-> FALSE, dedup |-> FALSE,
            mustSucceed |-> FALSE, wellTyped |-> FALSE]
@@ -49,7 +50,7 @@ Init ==
   /\ l = 1 /\ run = NoRun /\ tabs = <<>> /\ reserved = {} /\ plugins = {}
   /\ flags = [autoname |-> FALSE, dedup |-> FALSE]
   /\ stack = <<>> /\ genf = NoGen /\ cur = NoCur /\ lastAdd = [res |-> "", err |-> ""]
-  /\ files = NoFiles /\ pass = NoPass /\ bad = <<>>
+  /\ files = NoFiles /\ pass = NoPass /\ imports = <<>> /\ bad = <<>>
 
 Ev == Trace[l]
 IsEvent(e) == l <= N /\ Ev.ev = e /\ l' = l + 1
@@ -71,7 +72,7 @@ RunStart ==
   /\ tabs' = <<>> /\ reserved' = {} /\ plugins' = {}
   /\ flags' = [autoname |-> Ev.autoname, dedup |-> Ev.dedup]
   /\ stack' = <<>> /\ genf' = NoGen /\ cur' = NoCur /\ lastAdd' = [res |-> "", err |-> ""]
-  /\ files' = NoFiles /\ pass' = NoPass
+  /\ files' = NoFiles /\ pass' = NoPass /\ imports' = <<>>
   /\ UNCHANGED bad
 
 PkgStart ==
@@ -87,13 +88,14 @@ PkgStart ==
        <<"PkgStart: previous pass left open frames", stack = <<>> /\ ~genf.active>>,
        <<"PkgStart: reserved names are not the union of the files' funcNames",
            ToSet(Ev.reserved) = UNION {ToSet(Ev.files[i].funcNames) : i \in DOMAIN Ev.files}>> }))
+  /\ imports' = <<>>      \* newPackage creates a fresh printer
   /\ UNCHANGED <<run, lastAdd, files>>
 
 Call ==
   /\ IsEvent("Call")
   /\ cur' = [name |-> Ev.name, key |-> Ev.key, file |-> Ev.file, undef |-> Ev.undef]
   /\ Fail(Checks({ <<"Call: registration frames still open", stack = <<>> >> }))
-  /\ UNCHANGED <<run, tabs, reserved, plugins, flags, stack, genf, lastAdd, files, pass>>
+  /\ UNCHANGED <<run, tabs, reserved, plugins, flags, stack, genf, lastAdd, files, pass, imports>>
 
 Dispatch ==
   /\ IsEvent("Dispatch")
@@ -102,13 +104,13 @@ Dispatch ==
        <<"Dispatch: call with untyped arguments was registered", ~cur.undef>>,
        <<"Dispatch: plugin is not the longest-prefix match (C12)",
            [name |-> Ev.plugin, prefix |-> Ev.prefix] \in LongestMatch(plugins, Ev.name)>> }))
-  /\ UNCHANGED <<run, tabs, reserved, plugins, flags, stack, genf, cur, lastAdd, files, pass>>
+  /\ UNCHANGED <<run, tabs, reserved, plugins, flags, stack, genf, cur, lastAdd, files, pass, imports>>
 
 NoPlugin ==
   /\ IsEvent("NoPlugin")
   /\ lastAdd' = [res |-> "", err |-> ""]
   /\ Fail(Checks({ <<"NoPlugin: a plugin prefix matches the call", Candidates(plugins, Ev.name) = {}>> }))
-  /\ UNCHANGED <<run, tabs, reserved, plugins, flags, stack, genf, cur, files, pass>>
+  /\ UNCHANGED <<run, tabs, reserved, plugins, flags, stack, genf, cur, files, pass, imports>>
 
 \* binding of the logged lookup results to the specification's table
 LookupOK(tab, key, matches) ==
@@ -129,7 +131,7 @@ SetFuncName ==
               LookupOK(tab, Ev.key, Ev.matches)>>,
           <<"SetFuncName: reserved set changed", ToSet(Ev.reserved) = reserved>>,
           <<"SetFuncName: flags changed", Ev.autoname = flags.autoname /\ Ev.dedup = flags.dedup>> }))
-  /\ UNCHANGED <<run, tabs, reserved, plugins, flags, genf, cur, lastAdd, files, pass>>
+  /\ UNCHANGED <<run, tabs, reserved, plugins, flags, genf, cur, lastAdd, files, pass, imports>>
 
 SetOK(f, res, err) ==
   IF run.ident
@@ -146,7 +148,7 @@ SetFuncNameRet ==
                               SetOK(f, Ev.res, Ev.err)>> }))
      ELSE /\ Fail({"SetFuncNameRet: no matching open SetFuncName"})
           /\ UNCHANGED <<stack, tabs>>
-  /\ UNCHANGED <<run, reserved, plugins, flags, genf, cur, lastAdd, files, pass>>
+  /\ UNCHANGED <<run, reserved, plugins, flags, genf, cur, lastAdd, files, pass, imports>>
 
 SetFuncNameAuto ==
   /\ IsEvent("SetFuncNameAuto")
@@ -155,7 +157,7 @@ SetFuncNameAuto ==
           /\ Fail(Checks({ <<"SetFuncNameAuto: renaming although -autoname is off", flags.autoname>> }))
      ELSE /\ Fail({"SetFuncNameAuto: no matching open SetFuncName"})
           /\ UNCHANGED stack
-  /\ UNCHANGED <<run, tabs, reserved, plugins, flags, genf, cur, lastAdd, files, pass>>
+  /\ UNCHANGED <<run, tabs, reserved, plugins, flags, genf, cur, lastAdd, files, pass, imports>>
 
 GetFuncName ==
   /\ IsEvent("GetFuncName")
@@ -167,7 +169,7 @@ GetFuncName ==
           <<"GetFuncName: table binding differs from the specification state", LookupOK(tab, Ev.key, Ev.matches)>>,
           <<"GetFuncName: lookup result is not one of the matching names",
               (Ev.found <=> Ev.matches # <<>>) /\ (Ev.found => Ev.name \in ToSet(Ev.matches))>> }))
-  /\ UNCHANGED <<run, tabs, reserved, plugins, flags, genf, cur, lastAdd, files, pass>>
+  /\ UNCHANGED <<run, tabs, reserved, plugins, flags, genf, cur, lastAdd, files, pass, imports>>
 
 NewName ==
   /\ IsEvent("NewName")
@@ -179,7 +181,7 @@ NewName ==
                <<"NewName: reserved set changed", ToSet(Ev.reserved) = reserved>> }))
      ELSE /\ Fail({"NewName: no open GetFuncName that needs a name"})
           /\ UNCHANGED stack
-  /\ UNCHANGED <<run, tabs, reserved, plugins, flags, genf, cur, lastAdd, files, pass>>
+  /\ UNCHANGED <<run, tabs, reserved, plugins, flags, genf, cur, lastAdd, files, pass, imports>>
 
 GetFuncNameRet ==
   /\ IsEvent("GetFuncNameRet")
@@ -200,7 +202,7 @@ GetFuncNameRet ==
                    outer => SetOK(rest[Len(rest)], Ev.res, NoErr)>> }))
      ELSE /\ Fail({"GetFuncNameRet: no matching open GetFuncName"})
           /\ UNCHANGED stack
-  /\ UNCHANGED <<run, tabs, reserved, plugins, flags, genf, cur, lastAdd, files, pass>>
+  /\ UNCHANGED <<run, tabs, reserved, plugins, flags, genf, cur, lastAdd, files, pass, imports>>
 
 AddRet ==
   /\ IsEvent("AddRet")
@@ -214,7 +216,7 @@ AddRet ==
               (Ev.err = "" /\ Ev.res # "") => tabOK>>,
           <<"AddRet: call renamed although neither -autoname nor -dedup is given",
               (Ev.err = "" /\ Ev.res # "" /\ Ev.res # Ev.name) => (flags.autoname \/ flags.dedup)>> }))
-  /\ UNCHANGED <<run, tabs, reserved, plugins, flags, stack, genf, cur, files>>
+  /\ UNCHANGED <<run, tabs, reserved, plugins, flags, stack, genf, cur, files, imports>>
 
 Rename ==
   /\ IsEvent("Rename")
@@ -223,13 +225,13 @@ Rename ==
   /\ Fail(Checks({
        <<"Rename: not the call being registered", Ev.from = cur.name /\ Ev.file = cur.file>>,
        <<"Rename: new name is not the registration result", Ev.to = lastAdd.res /\ Ev.to # Ev.from>> }))
-  /\ UNCHANGED <<run, tabs, reserved, plugins, flags, stack, genf, cur, lastAdd, pass>>
+  /\ UNCHANGED <<run, tabs, reserved, plugins, flags, stack, genf, cur, lastAdd, pass, imports>>
 
 Rewrite ==
   /\ IsEvent("Rewrite")
   /\ files' = [files EXCEPT !.rewritten = @ \cup {Ev.file}]
   /\ Fail(Checks({ <<"Rewrite: user file rewritten without a renamed call in it (C10)", Ev.file \in files.renamed>> }))
-  /\ UNCHANGED <<run, tabs, reserved, plugins, flags, stack, genf, cur, lastAdd, pass>>
+  /\ UNCHANGED <<run, tabs, reserved, plugins, flags, stack, genf, cur, lastAdd, pass, imports>>
 
 Pending(tab, key) == \E n \in Names(tab) : tab.f2t[n] = key /\ n \notin tab.gen
 Emitted(tab, key) == \E n \in Names(tab) : tab.f2t[n] = key /\ n \in tab.gen
@@ -241,7 +243,7 @@ GenStart ==
        <<"GenStart: previous Generate still open", ~genf.active /\ stack = <<>> >>,
        <<"GenStart: key is not a registered, not yet generated entry of the work list",
            Pending(Tab(Ev.prefix), Ev.key)>> }))
-  /\ UNCHANGED <<run, tabs, reserved, plugins, flags, stack, cur, lastAdd, files, pass>>
+  /\ UNCHANGED <<run, tabs, reserved, plugins, flags, stack, cur, lastAdd, files, pass, imports>>
 
 Generating ==
   /\ IsEvent("Generating")
@@ -251,7 +253,7 @@ Generating ==
           <<"Generating: outside Generate", genf.active>>,
           <<"Generating: name is not bound in the table", Ev.name \in Names(tab) /\ LookupOK(tab, Ev.key, Ev.matches)>>,
           <<"Generating: function emitted twice", ~Ev.already /\ Ev.name \notin tab.gen>> }))
-  /\ UNCHANGED <<run, reserved, plugins, flags, stack, genf, cur, lastAdd, files, pass>>
+  /\ UNCHANGED <<run, reserved, plugins, flags, stack, genf, cur, lastAdd, files, pass, imports>>
 
 GenEnd ==
   /\ IsEvent("GenEnd")
@@ -262,7 +264,7 @@ GenEnd ==
        <<"GenEnd: helper lookup frames left open", stack = <<>> >>,
        <<"GenEnd: Generate succeeded without marking its function as generated (work list would never drain)",
            Ev.err = "" => Emitted(Tab(Ev.prefix), Ev.key)>> }))
-  /\ UNCHANGED <<run, tabs, reserved, plugins, flags, stack, cur, lastAdd, files>>
+  /\ UNCHANGED <<run, tabs, reserved, plugins, flags, stack, cur, lastAdd, files, imports>>
 
 AllDone == \A p \in DOMAIN tabs : tabs[p].gen = Names(tabs[p])
 
@@ -276,26 +278,26 @@ PassEnd ==
            \A p \in DOMAIN tabs : TabBijection(tabs[p]) /\ OrderMatches(tabs[p])>>,
        <<"PassEnd: content flag disagrees with what was generated",
            (\E p \in DOMAIN tabs : tabs[p].gen # {}) => Ev.content>> }))
-  /\ UNCHANGED <<run, tabs, reserved, plugins, flags, stack, genf, cur, lastAdd, files>>
+  /\ UNCHANGED <<run, tabs, reserved, plugins, flags, stack, genf, cur, lastAdd, files, imports>>
 
 PrintFile ==
   /\ IsEvent("Print")
   /\ pass' = [pass EXCEPT !.printed = TRUE]
   /\ Fail(Checks({ <<"Print: without generated content or before the pass ended", pass.ended /\ pass.content>> }))
-  /\ UNCHANGED <<run, tabs, reserved, plugins, flags, stack, genf, cur, lastAdd, files>>
+  /\ UNCHANGED <<run, tabs, reserved, plugins, flags, stack, genf, cur, lastAdd, files, imports>>
 
 DeleteFile ==
   /\ IsEvent("Delete")
   /\ pass' = [pass EXCEPT !.deleted = TRUE]
   /\ Fail(Checks({ <<"Delete: although content was generated", pass.ended /\ ~pass.content>> }))
-  /\ UNCHANGED <<run, tabs, reserved, plugins, flags, stack, genf, cur, lastAdd, files>>
+  /\ UNCHANGED <<run, tabs, reserved, plugins, flags, stack, genf, cur, lastAdd, files, imports>>
 
 Reload ==
   /\ IsEvent("Reload")
   /\ Fail(Checks({
        <<"Reload: nothing was left undefined", pass.undefined # <<>> >>,
        <<"Reload: output neither written nor removed before reloading", pass.printed \/ pass.deleted>> }))
-  /\ UNCHANGED <<run, tabs, reserved, plugins, flags, stack, genf, cur, lastAdd, files, pass>>
+  /\ UNCHANGED <<run, tabs, reserved, plugins, flags, stack, genf, cur, lastAdd, files, pass, imports>>
 
 PkgExit ==
   /\ IsEvent("PkgExit")
@@ -304,7 +306,7 @@ PkgExit ==
        <<"PkgExit: an Add/Generate error was swallowed (C09)", pass.errSeen => Ev.err # "">>,
        <<"PkgExit: success without writing or removing derived.gen.go",
            Ev.err = "" => (pass.printed \/ pass.deleted)>> }))
-  /\ UNCHANGED <<run, tabs, reserved, plugins, flags, stack, genf, cur, lastAdd, files>>
+  /\ UNCHANGED <<run, tabs, reserved, plugins, flags, stack, genf, cur, lastAdd, files, imports>>
 
 \* RunEnd is written by the harness: exit status plus go/types observations.
 PostOK(post) ==
@@ -312,6 +314,9 @@ PostOK(post) ==
        (run.autoname \/ run.dedup \/ run.ident) => post.typechecks>>,
    <<"RunEnd: a call site invokes a function whose parameters are not exactly its argument types (C11)",
        \A i \in DOMAIN post.sites : post.sites[i].arg = post.sites[i].param>>,
+   <<"RunEnd: the functions in derived.gen.go are not exactly the registered and generated names, each once (C01)",
+       run.mustSucceed => /\ {post.funcs[i].name : i \in DOMAIN post.funcs} = UNION {tabs[p].gen : p \in DOMAIN tabs}
+                          /\ \A i, j \in DOMAIN post.funcs : post.funcs[i].name = post.funcs[j].name => i = j>>,
    <<"RunEnd: a generated function took a name the user calls elsewhere (C11)",
        \A i \in DOMAIN post.funcs : post.funcs[i].name \notin ToSet(post.reserved)>>,
    <<"RunEnd: after -dedup a plugin has two functions for one argument type list (C11)",
@@ -340,7 +345,7 @@ RunEnd ==
         <<"RunEnd: files rewritten without -autoname/-dedup (C10)",
             (~run.autoname /\ ~run.dedup) => Ev.changedFiles = <<>> >> })
         \cup (IF Ev.exit = 0 /\ Ev.post.present THEN Checks(PostOK(Ev.post)) ELSE {}))
-  /\ UNCHANGED <<run, tabs, reserved, plugins, flags, stack, genf, cur, lastAdd, files, pass>>
+  /\ UNCHANGED <<run, tabs, reserved, plugins, flags, stack, genf, cur, lastAdd, files, pass, imports>>
 
 \* FileObs is written by the harness for every user file of the package after the run:
 \* token texts of gofmt(original) and of the file as it is now, and the renames of the
@@ -361,7 +366,7 @@ FileObs ==
           <<"FileObs: rewritten file is not a complete well-formed Go file (C10)", Ev.changed => Ev.parses>>,
           <<"FileObs: rewritten file is not exactly the gofmt formatting of the substituted original (C10)",
               (Ev.changed /\ Ev.single) => Ev.exact>> }))
-  /\ UNCHANGED <<run, tabs, reserved, plugins, flags, stack, genf, cur, lastAdd, files, pass>>
+  /\ UNCHANGED <<run, tabs, reserved, plugins, flags, stack, genf, cur, lastAdd, files, pass, imports>>
 
 \* PrefixObs is written by the harness (C12): the run used customised prefixes; its output and the
 \* output of the default run on the default-named twin package were canonicalised (every generated
@@ -376,7 +381,7 @@ PrefixObs ==
            (Ev.exitR = 0 /\ Ev.exitD = 0 /\ Ev.globalOnly) => Ev.textual>>,
        <<"PrefixObs: a call was not handled by the plugin the specification's longest-prefix rule selects (C12)",
            \A i \in DOMAIN Ev.handled : Ev.handled[i].got = Ev.handled[i].want>> }))
-  /\ UNCHANGED <<run, tabs, reserved, plugins, flags, stack, genf, cur, lastAdd, files, pass>>
+  /\ UNCHANGED <<run, tabs, reserved, plugins, flags, stack, genf, cur, lastAdd, files, pass, imports>>
 
 \* RegenObs is written by the harness (C07): this run started from a derived.gen.go left by an
 \* earlier version of the sources (or a truncated remnant); a second run of the same sources in a
@@ -392,7 +397,7 @@ RegenObs ==
            (Ev.exitS = 0 /\ Ev.exitR = 0 /\ Ev.scratchTypechecks) => Ev.typechecksR>>,
        <<"RegenObs: derived.gen.go not removed although no derive calls remain (C07)",
            (Ev.exitR = 0 /\ ~Ev.callsRemain) => ~Ev.existsR>> }))
-  /\ UNCHANGED <<run, tabs, reserved, plugins, flags, stack, genf, cur, lastAdd, files, pass>>
+  /\ UNCHANGED <<run, tabs, reserved, plugins, flags, stack, genf, cur, lastAdd, files, pass, imports>>
 
 \* DetObs / CtxObs are written by the harness (C08): the same sources and flags were run n times
 \* (DetObs), or once per way of addressing / grouping the package on the command line (CtxObs);
@@ -401,27 +406,41 @@ DetObs ==
   /\ IsEvent("DetObs")
   /\ Fail(Checks({
        <<"DetObs: repeated runs on the same sources and flags disagree (C08)", Len(Ev.outcomes) = 1>> }))
-  /\ UNCHANGED <<run, tabs, reserved, plugins, flags, stack, genf, cur, lastAdd, files, pass>>
+  /\ UNCHANGED <<run, tabs, reserved, plugins, flags, stack, genf, cur, lastAdd, files, pass, imports>>
 
 CtxObs ==
   /\ IsEvent("CtxObs")
   /\ Fail(Checks({
        <<"CtxObs: output depends on how the package is addressed or which other packages are named (C08)",
            Len(Ev.outcomes) = 1>> }))
-  /\ UNCHANGED <<run, tabs, reserved, plugins, flags, stack, genf, cur, lastAdd, files, pass>>
+  /\ UNCHANGED <<run, tabs, reserved, plugins, flags, stack, genf, cur, lastAdd, files, pass, imports>>
 
-\* events that carry no obligation at this layer
-Other ==
-  /\ l <= N
-  /\ Ev.ev \in {"Import"}
-  /\ l' = l + 1
-  /\ UNCHANGED <<run, tabs, reserved, plugins, flags, stack, genf, cur, lastAdd, files, pass, bad>>
+\* printer.NewImport: the alias under which generated code refers to a package.  The first
+\* package to use a name keeps it; a second package with the same name gets its whole import
+\* path, made an identifier, as alias.  Never two paths under one alias (C01: the file imports
+\* exactly what it uses and same-named packages do not collide).
+ImportEv ==
+  /\ IsEvent("Import")
+  /\ Fail(Checks({
+       <<"Import: logged alias table differs from the specification state",
+           Ev.had = (IF Ev.name \in DOMAIN imports THEN imports[Ev.name] ELSE "")>> }))
+  /\ UNCHANGED <<run, tabs, reserved, plugins, flags, stack, genf, cur, lastAdd, files, pass, imports>>
+
+ImportRet ==
+  /\ IsEvent("ImportRet")
+  /\ imports' = (Ev.alias :> Ev.path) @@ imports
+  /\ Fail(Checks({
+       <<"ImportRet: alias already stands for another import path (C01)",
+           Ev.alias \in DOMAIN imports => imports[Ev.alias] = Ev.path>>,
+       <<"ImportRet: the same path is imported under two aliases (C01)",
+           \A a \in DOMAIN imports : imports[a] = Ev.path => a = Ev.alias>> }))
+  /\ UNCHANGED <<run, tabs, reserved, plugins, flags, stack, genf, cur, lastAdd, files, pass>>
 
 Next ==
   \/ RunStart \/ PkgStart \/ Call \/ Dispatch \/ NoPlugin
   \/ SetFuncName \/ SetFuncNameRet \/ SetFuncNameAuto \/ GetFuncName \/ NewName \/ GetFuncNameRet
   \/ AddRet \/ Rename \/ Rewrite \/ GenStart \/ Generating \/ GenEnd
-  \/ PassEnd \/ PrintFile \/ DeleteFile \/ Reload \/ PkgExit \/ RunEnd \/ FileObs \/ PrefixObs \/ RegenObs \/ DetObs \/ CtxObs \/ Other
+  \/ PassEnd \/ PrintFile \/ DeleteFile \/ Reload \/ PkgExit \/ RunEnd \/ FileObs \/ PrefixObs \/ RegenObs \/ DetObs \/ CtxObs \/ ImportEv \/ ImportRet
 
 Spec == Init /\ [][Next]_vars
 
